@@ -297,6 +297,9 @@ func ConvertString(octetString ...string) ([]string, error) {
 
 	for _, s := range octetString {
 		data := []byte(s)
+		if len(data) <= startOfDataIdx {
+			return nil, fmt.Errorf("%s: ber encoded string is too short (%d bytes): %w", op, len(data), ErrInvalidParameter)
+		}
 
 		switch {
 		case
@@ -350,6 +353,9 @@ func readLength(bytes []byte) (length int, read int, err error) {
 		// Accumulate into a 64-bit variable
 		var length64 int64
 		for i := 0; i < lengthBytes; i++ {
+			if read >= len(bytes) {
+				return 0, read, errors.New("truncated long-form length")
+			}
 			b = bytes[read]
 			read++
 
